@@ -226,6 +226,18 @@ def run(prop, tier, replay, Ctx):
         with open(replay) as f:
             body = json.load(f)
         case, sig = body["case"], body.get("signature")
+        if body.get("section") == "args_same_result":
+            hits = []
+            for _ in range(2):
+                hs = []
+                for lay in ("output_last", case["layout"]):
+                    r = run_case({"model": BM.baseline(), "lang": case["lang"], "config": case["config"], "layout": lay, "label": "layout:" + lay}, exe, stubdir, workroot, 2)
+                    if "machinery" in r:
+                        raise Ctx.Machinery(r["machinery"])
+                    hs.append(r["obs"]["out_hash"])
+                hits.append(hs[0] != hs[1])
+                print("replay: layouts output_last / %s give %s output" % (case["layout"], "DIFFERENT" if hs[0] != hs[1] else "the same"))
+            return ("replay", 1 if all(hits) else (0 if not any(hits) else 2))
         hits = []
         for _ in range(2):
             r = run_case(case, exe, stubdir, workroot, 25)
@@ -273,6 +285,24 @@ def run(prop, tier, replay, Ctx):
             if s not in seen:
                 seen.add(s)
                 add_violation(rep, section, s, d, case)
+    # arguments before `--` configure the tool, whatever else stands before `--` and however the output is named: for one model,
+    # language and configuration every argument layout must produce the same bytes
+    groups = {}
+    for (section, label, case), r in zip(cases, results):
+        if section == "args" and r.get("obs") and r["obs"].get("distinct_outputs") == 1:
+            key = (case["lang"], json.dumps(case["config"], sort_keys=True))
+            groups.setdefault(key, []).append((case["layout"], r["obs"]["out_hash"], case))
+    for key, lst in sorted(groups.items()):
+        ref = [h for lay, h, _ in lst if lay == "output_last"]
+        if not ref:
+            continue
+        for lay, h, case in lst:
+            viol = None
+            if h != ref[0]:
+                viol = ("config_depends_on_argument_layout:%s:%s" % (key[0], lay),
+                        "same header, same configuration %s: the output with argument layout `%s` differs from the one with `output_last` - what stands before `--` next to the configuration option (or how the output is named) changes the result" % (key[1], lay))
+            rep.record("args_same_result", {"lang": key[0], "config": case["config"], "layout": lay}, {"layout": lay, "same": h == ref[0]}, True, viol)
+    rules["args_same_result"] = "for each language and configuration {none, Box + Arc defaults}: the processed header of every argument layout (incl. `+nightly -c cfg --`) is byte-identical to the one of the plain layout"
     for s in rep.order:
         rep.rule(s, rules.get(s, ""))
     rep.note(rep.order[0], "unjudged_observations", unjudged)
